@@ -54,6 +54,19 @@ def cases(draw, d):
         gaps = set(range(n))                   # every value missing
     else:
         gaps = set(draw(st.lists(st.integers(0, n - 1), min_size=1, max_size=4)))
+    # dash-continued quoted strings ahead of the gaps: the default loader removes
+    # the continuations before parsing and must still report original line numbers
+    ndash = draw(st.sampled_from([0, 0, 0, 1, 2, 3]))
+    pre = []
+    for j in range(ndash):
+        body = draw(st.sampled_from(["ab-\n   cd", "x-\n\n y", "long text-\n  more-\n  end",
+                                     "crlf-\r\n  z"]))
+        pre.append(("assign", f"dash{j}", [gt.T('"' + body + '"', "quoted",
+                                                 ("str", nm.Norm(folding=True, omni=True).string(body)))],
+                    ("str", nm.Norm(folding=True, omni=True).string(body)), False))
+    if pre:
+        nodes = pre + nodes
+        gaps = {g + len(pre) for g in gaps}
     toks, items, gap_eqs = gt.flatten_nodes(nodes, frozenset(gaps))
     if draw(st.booleans()):
         toks = toks + [gt.T(draw(gt.mixed_case("end")), "end")]
